@@ -10,7 +10,7 @@ import time
 import z3
 
 from vlib import env
-from vlib.zrun import explore_and_prove, eq_term
+from vlib.zrun import explore_and_prove, eq_term, wrapper_exc
 from vlib.zsym import Real, Int, SymNum, lift, model_value
 
 META = {
@@ -127,30 +127,69 @@ def task_args_dim():
     }
     ob = di = q = 0
     viol = []
-    for name, cls in (("MassAction", MassAction), ("Arrhenius", Arrhenius), ("Eyring", Eyring)):
-        got = cls([1] * len(exp[name])).args_dimensionality(reaction=R())
-        for i, (g, e) in enumerate(zip(got, exp[name])):
-            ob += 1
-            g = dict(g)
-            conds = [eq_term(g.get(b, 0), e.get(b, 0)) for b in BASES] + [z3.BoolVal(set(g) <= set(BASES))]
-            s = z3.Solver()
-            s.add(z3.Not(z3.And(*conds)))
-            q += 1
-            if str(s.check()) == "unsat" and len(got) == len(exp[name]):
-                di += 1
-            else:
-                viol.append(dict(key="args_dim:%s:%d" % (name, i), desc="%s.args_dimensionality()[%d] = %s" % (name, i, g), replay_src='''
+    REPLAY_AD = '''
 from chempy import Reaction
 from chempy.kinetics.rates import MassAction, Arrhenius, Eyring
 bad = False
 for n, rx in ((0, Reaction({}, {"B": 1})), (1, Reaction({"A": 1}, {"B": 1})), (2, Reaction({"A": 2}, {"B": 1})), (3, Reaction({"A": 2, "B": 1}, {"C": 1}))):
-    for cls, nargs in ((MassAction, 1), (Arrhenius, 2), (Eyring, 3)):
+    # every class is asked before and after every other one (a result must not depend on what was asked earlier)
+    for cls, nargs in ((MassAction, 1), (Arrhenius, 2), (Eyring, 3), (MassAction, 1), (Arrhenius, 2), (Eyring, 3)):
         d = dict(cls([1] * nargs).args_dimensionality(reaction=rx)[0])
         exp = dict(time=-1, amount=1 - n, length=3 * (n - 1))
         if cls is Eyring: exp["temperature"] = -1
         if {k: v for k, v in d.items() if v} != {k: v for k, v in exp.items() if v}: print(cls.__name__, n, d); bad = True
 sys.exit(1 if bad else 0)
-'''))
+'''
+    SEQ = (("MassAction", MassAction), ("Arrhenius", Arrhenius), ("Eyring", Eyring), ("MassAction", MassAction), ("Arrhenius", Arrhenius),
+           ("Eyring", Eyring))
+
+    def conds_of(name, got):
+        if len(got) != len(exp[name]):
+            return [z3.BoolVal(False)]
+        out = []
+        for g, e in zip(got, exp[name]):
+            g = dict(g)
+            out.append(z3.And(*([eq_term(g.get(b, 0), e.get(b, 0)) for b in BASES] + [z3.BoolVal(set(g) <= set(BASES))])))
+        return out
+
+    try:
+        # fast path: straight-line code, `order` stays an unbounded symbolic integer
+        gots = [(name, cls([1] * len(exp[name])).args_dimensionality(reaction=R())) for name, cls in SEQ]
+    except Exception:
+        gots = None
+    bounds = "reaction order: any integer (symbolic)"
+    if gots is not None:
+        for k, (name, got) in enumerate(gots):
+            for i, c in enumerate(conds_of(name, got)):
+                ob += 1
+                s = z3.Solver()
+                s.add(z3.Not(c))
+                q += 1
+                if str(s.check()) == "unsat":
+                    di += 1
+                elif not any(v["key"] == "args_dim:%s:%d" % (name, i) for v in viol):
+                    viol.append(dict(key="args_dim:%s:%d" % (name, i), desc="%s.args_dimensionality()[%d] = %s (call %d of the sequence)" % (name, i, dict(got[i]) if i < len(got) else None, k),
+                                     replay_src=REPLAY_AD))
+    else:
+        # fallback (the implementation hashes / branches on the order): explored with the order decided by solver forks in 0..4
+        from vlib.zrun import explore_and_prove
+
+        def fn():
+            return [(name, cls([1] * len(exp[name])).args_dimensionality(reaction=R())) for name, cls in SEQ]
+
+        def goal(p):
+            if p.kind == "exc":
+                return False
+            return z3.And(*[c for name, got in p.value for c in conds_of(name, got)])
+
+        o = explore_and_prove(fn, [order.t >= 0, order.t <= 4], goal, max_paths=200, deadline_s=120)
+        ob += o.obligations
+        di += o.discharged
+        q += o.queries
+        bounds = "reaction order 0..4 (forking fallback)"
+        for p, m, g in o.failed[:1]:
+            viol.append(dict(key="args_dim:sequence", soft=(p.kind == "exc" and wrapper_exc(p.value)),
+                             desc="args_dimensionality sequence at order %s -> %r" % (model_value(m, order.t) if m is not None else "?", p.value), replay_src=REPLAY_AD))
     extra = [(EyringHS([1, 1, 1]).args_dimensionality(), [dict(mass=1, length=2, time=-2, amount=-1), dict(mass=1, length=2, time=-2, amount=-1, temperature=-1),
                                                           dict(amount=1, length=-3)]),
              (RampedTemp([1, 1]).args_dimensionality(), [dict(temperature=1), dict(temperature=1, time=-1)])]
@@ -162,7 +201,7 @@ sys.exit(1 if bad else 0)
             viol.append(dict(key="args_dim:fixed", desc="fixed args_dimensionality %s != %s" % (got, e), replay_src="sys.exit(1)\n"))
     return dict(engine="Z", functions=[env.describe(MassAction.args_dimensionality), env.describe(Arrhenius.args_dimensionality),
                                        env.describe(Eyring.args_dimensionality)], obligations=ob, discharged=di, violations=viol, queries=q,
-                twin="n/a", bounds="reaction order: any integer (symbolic)", status="violation" if viol else "discharged",
+                twin="n/a", bounds=bounds, status="violation" if viol else "discharged",
                 sample={"class": "Arrhenius", "order": "symbolic", "oracle": "concentration^(1-order)/time, temperature"})
 
 
